@@ -19,6 +19,18 @@ Proof. exact layouts_conform. Qed.
 Theorem C02_names_match : forallb names_conform field_names = true /\ map fst field_names = map l_id layouts.
 Proof. exact names_all_conform. Qed.
 
+(* ... and the registry is complete: the command_ids registered by the running code are EXACTLY the 33 operations of
+   SMPP v5 (section 4.7.5 table 4-42, transcribed independently of the syntax tables above) — every operation has a
+   registered type that its id finds, every registered type is an operation with a syntax table, and no other id
+   is accepted.  (The harness sends a minimal frame of each of the 33 ids, from its own literal list, through ReadPDU.) *)
+Theorem C02_registry_complete :
+  map l_id layouts = spec_command_ids /\
+  List.length layouts = 33%nat /\
+  (forall id, In id spec_command_ids -> exists l, In l layouts /\ l_id l = id /\ find_layout layouts id = Some l) /\
+  (forall l, In l layouts -> In (l_id l) spec_command_ids /\ exists o, find_op smpp5_ops (l_id l) = Some o) /\
+  (forall id, ~ In id spec_command_ids -> find_layout layouts id = None).
+Proof. exact registry_complete. Qed.
+
 (* 2. Octets: for EVERY layout and every well-formed value, the frame Marshal writes is the
    specification's layout of that value: 16-octet big-endian header with command_length =
    frame size and the type's command_id, then each parameter (NUL-terminated strings, one-octet
@@ -64,7 +76,31 @@ Theorem C02_dests_any_order : forall l b rest,
   dec_dests (b ++ rest) = Ok (smes_of l, dls_of l, rest).
 Proof. exact dec_dests_any_order. Qed.
 
-(* 4. No misstatement: for any Go value (octets are octets; flag structs within their bit widths;
+(* ... and WITHOUT any hypothesis about Marshal — frames a conforming peer may send that Marshal never produces:
+   a TLV section laid out from the specification with ANY tags in ANY order, duplicates, and values of 0..65535
+   octets (a zero-length value included) decodes to the map holding per tag the last value sent; *)
+Theorem C02_spec_tlvs_decode : forall l b,
+  forallb tlv_ok0 l = true -> lay_all lay_tlv l = Some b -> dec_tags b = Ok (kv_sort l).
+Proof. exact dec_tags_spec. Qed.
+(* the short-message region laid out from the specification — [data_coding] sm_default_msg_id sm_length short_message,
+   short_message = user data header (indicator set) then message — decodes to exactly those values for EVERY
+   sm_length 0..255 (141..255 included, which Marshal refuses to produce), followed by ANY further octets. *)
+Theorem C02_spec_short_message_decodes : forall (rep : bool) (dc dflt : N) (u : option kvs) (msg rest : bytes),
+  (rep = true -> u = None) ->
+  match u with Some u' => wf_udh u' = true | None => True end ->
+  let o := (match u with Some u' => spec_udh u' | None => [] end) ++ msg in
+  len o <= 255 ->
+  dec_short rep (match u with Some _ => true | None => false end)
+            ((if rep then [] else [dc]) ++ [dflt; len o] ++ o ++ rest)
+  = Ok ({| sm_dflt := dflt; sm_dc := (if rep then NoCoding else dc); sm_udh := u; sm_msg := msg |}, rest).
+Proof. exact spec_short_decodes. Qed.
+(* PARTIAL: the whole-PDU converse "forall spec values svs, unmarshal lay (spec_frame .. (lay_params (erase lay) svs)) = Ok (of_spec lay svs)"
+   without the Marshal hypothesis is proven per field kind only: C-octet strings, integers, addresses (C01's per-kind
+   lemmas, which quantify over arbitrary octets), destinations in any order (C02_dests_any_order), TLVs and the short
+   message (the two theorems above).  Missing: an [of_spec] function and the induction over the parameter list that
+   composes them (audit F2). *)
+
+(* 4. No misstatement: for any Go value (octets are octets; flag structs with ANY sub-field values;
    UDH present exactly when the indicator is set; data_coding <> 0xBF; skipped field zero), if Marshal
    succeeds then the value is well formed — NUL-free strings, counts and lengths that fit their
    fields — so by (2) the frame states exactly that value; otherwise Marshal reports an error. *)
@@ -74,16 +110,26 @@ Theorem C02_no_misstatement : forall lay h vs f,
   marshal lay (VHeader h :: vs) = Ok f -> wf_vals lay (VHeader h :: vs).
 Proof. exact marshal_ok_expressible. Qed.
 
+(* ... in particular a flag sub-field wider than its bit field is refused (after the fix: commits; it used to be masked) *)
+Theorem C02_flag_width_refused : forall lay u,
+  (forall e, esm_fits e = false -> enc_field lay u FEsm (VEsm e) = Err ESize) /\
+  (forall r, regdel_fits r = false -> enc_field lay u FRegDel (VRegDel r) = Err ESize).
+Proof. exact flag_width_refused. Qed.
+
 (* non-vacuity: the submit_sm of C01's example, laid out by the specification encoder *)
 Example C02_inhabited : exists body, lay_params (erase (lay_of 4)) (to_spec (lay_of 4) C01_example_value) = Some body /\ len body = 40.
 Proof. eexists. split; vm_compute; reflexivity. Qed.
 
 Print Assumptions C02_layouts_match.
 Print Assumptions C02_names_match.
+Print Assumptions C02_registry_complete.
 Print Assumptions C02_marshal_is_spec.
 Print Assumptions C02_spec_frame_decodes.
 Print Assumptions C02_tlvs_any_order.
 Print Assumptions C02_tlv_order_irrelevant.
 Print Assumptions C02_spec_frame_any_tlv_order.
 Print Assumptions C02_dests_any_order.
+Print Assumptions C02_spec_tlvs_decode.
+Print Assumptions C02_spec_short_message_decodes.
 Print Assumptions C02_no_misstatement.
+Print Assumptions C02_flag_width_refused.
